@@ -276,6 +276,8 @@ def run(tier="quick"):
     ncp = LR.check_map_copies(chk, prog, [f for f in fns if LR.short_slot(prog, f) == "set"])
     nrm = LR.check_remove_by_equality(chk, prog, [f for f in fns if LR.short_slot(prog, f) == "remove"])
     nset = check_set_result(chk, prog, fns)
+    chk.rule("A1", "the argument of an ASSERT / REQUIRE only observes (no store disappears with DEBUG=0)")
+    chk.count("assertion_arguments_with_calls", LR.check_assert_purity(chk, prog, ["array.c", "linked_list.c", "dlinked_list.c", "objpair.c"], "A1"))
     nord = LR.check_ordering(chk, prog, [f for f in fns if LR.short_slot(prog, f) in ("get", "insert") or re.search(r"_insert$", f.name)])
     nun = LR.check_unlink_effects(chk, prog, "dlinked_list.c", True, only=names) + LR.check_unlink_effects(chk, prog, "linked_list.c", False, only=names)
     nins = LR.check_insert_effects(chk, prog, "dlinked_list.c", True, only=names) + LR.check_insert_effects(chk, prog, "linked_list.c", False, only=names)
